@@ -2,7 +2,7 @@
 # run every property's thorough tier once, one after the other; log exit codes and wall time
 cd "$(dirname "$0")/.."
 ./setup.sh > /dev/null 2>&1
-for p in ${THOROUGH_PROPS:-C12 C04 C01 C03 C13 C19 C06 C02 C11 C15 C07 C08 C09 C05 C18 C10 C16 C17 C14}; do
+for p in ${THOROUGH_PROPS:-C01 C03 C13 C19 C06 C02 C11 C15 C07 C08 C09 C05}; do
   t0=$(date +%s)
   ./check $p --tier thorough > thorough_$p.log 2>&1
   rc=$?
